@@ -336,6 +336,7 @@ type guardedField struct {
 // guardedBy checks that every access of the field outside the allocating constructor happens
 // with the mutex of the same object held (write mode for stores).
 func (c *Ctx) guardedBy(g guardedField, exemptFns map[string]string) {
+	c.lockNotCopied(g.Struct)
 	n := 0
 	for _, fn := range c.subjects() {
 		var lf *lockFlow
@@ -859,4 +860,62 @@ func (c *Ctx) sharedScratchWrites(typ, mutex string) {
 		}
 	}
 	c.ok(typ+":shared-scratch", 0, "%d append(s) to slices kept in %s fields, all under the exclusive lock", n, typ)
+}
+
+// lockNotCopied: an object whose field is guarded by a mutex of the same object must never be
+// copied - a method with a value receiver (or a by-value parameter, or a load of the whole
+// struct) works on a private copy of the mutex and of the guarded field: the critical section
+// excludes nobody and the field it reads is stale.  (go vet's copylocks says the same; the
+// project's suite runs with -vet=off.)
+func (c *Ctx) lockNotCopied(structName string) {
+	if c.copyChecked == nil {
+		c.copyChecked = map[string]bool{}
+	}
+	if c.copyChecked[c.curRule+"/"+structName] {
+		return
+	}
+	c.copyChecked[c.curRule+"/"+structName] = true
+	var contains func(t types.Type, depth int) bool
+	contains = func(t types.Type, depth int) bool {
+		if depth > 6 {
+			return false
+		}
+		if n, ok := t.(*types.Named); ok && n.Obj().Name() == structName && n.Obj().Pkg() != nil && strings.HasSuffix(n.Obj().Pkg().Path(), "desync") {
+			return true
+		}
+		switch u := t.Underlying().(type) {
+		case *types.Struct:
+			for i := 0; i < u.NumFields(); i++ {
+				if contains(u.Field(i).Type(), depth+1) {
+					return true
+				}
+			}
+		case *types.Array:
+			return contains(u.Elem(), depth+1)
+		}
+		return false
+	}
+	sites := 0
+	for _, fn := range c.Funcs {
+		if fn.Synthetic != "" || fn.Blocks == nil {
+			continue
+		}
+		for _, p := range fn.Params {
+			sites++
+			if contains(p.Type(), 0) {
+				what := "parameter"
+				if fn.Signature.Recv() != nil && p == fn.Params[0] {
+					what = "receiver"
+				}
+				c.bad(structName+":not-copied@"+fnKey(fn), fn.Pos(), "%s %s of %s holds a %s by value: the function locks a private copy of the mutex and reads a stale copy of the guarded state, it excludes nobody", what, p.Name(), fnKey(fn), structName)
+			}
+		}
+		instrs(fn, func(_ *ssa.BasicBlock, _ int, ins ssa.Instruction) {
+			if u, ok := ins.(*ssa.UnOp); ok && u.Op == token.MUL && contains(u.Type(), 0) {
+				sites++
+				c.bad(structName+":not-copied@"+fnKey(fn), u.Pos(), "a %s is copied by value in %s (load of the whole struct): the copy carries its own mutex and a stale copy of the guarded state", structName, fnKey(fn))
+			}
+		})
+	}
+	c.ok(structName+":not-copied", token.NoPos, "no value receiver, by-value parameter or whole-struct load of a type holding a %s in %d parameter and load sites", structName, sites)
 }
